@@ -20,7 +20,8 @@ class LenBytes:
     """A byte string of (possibly symbolic) length and unconstrained content.
     h2 never inspects DATA payloads / encoded header blocks / ALTSVC fields /
     GOAWAY debug data; it takes len() and slices them."""
-    __ch_pytype__ = bytes
+    def __ch_pytype__(self):
+        return bytes
 
     def __init__(self, n):
         self.n = n
@@ -167,37 +168,49 @@ def _serialize_model(self):
     n = model_body_len(self)
     self.body_len = n
     with NoTracing():
+        k = len(CAPTURE)
+        if k >= 250:
+            raise HarnessError("more than 250 frames serialised on one path")
         CAPTURE.append(self)
-    # one opaque byte per frame: the output buffer grows exactly when a frame is emitted
-    return b'F'
+    # one opaque tag byte per frame (its index in the capture list): the output buffer
+    # grows exactly when a frame is emitted and keeps the frames' BUFFER order
+    return bytes([k])
 
 
 register_patch(hf.Frame.serialize, _serialize_model)
 
 
 class Out:
-    """Frames emitted by a connection since this object was created.
-    Symbolic mode: the capture list.  Native mode: the real bytes re-parsed by
-    hyperframe (an independent decoder of what was really serialised)."""
+    """Frames emitted by a connection since this object was created, in the order they
+    sit in the output buffer.  Symbolic mode: tag bytes -> captured frame objects.
+    Native mode: the real bytes re-parsed by hyperframe (an independent decoder of what
+    was really serialised)."""
 
     def __init__(self, conn):
         self.conn = conn
-        if CTX.mode == 'sym':
-            with NoTracing():
-                self.mark = len(CAPTURE)
-        else:
-            self.mark = len(conn._data_to_send)
+        self.mark = len(conn._data_to_send)
+
+    def cleared(self):
+        return len(self.conn._data_to_send) < self.mark
 
     def frames(self):
+        buf = self.conn._data_to_send
+        mark = self.mark if len(buf) >= self.mark else 0
         if CTX.mode == 'sym':
             with NoTracing():
-                return list(CAPTURE[self.mark:])
-        return parse_frames(bytes(self.conn._data_to_send[self.mark:]))
+                tags = bytes(buf[mark:])
+                if any(b >= len(CAPTURE) for b in tags) or mark != self.mark:
+                    bad = True
+                else:
+                    bad = False
+                    out = [CAPTURE[b] for b in tags]
+            if bad:
+                # bytes that were in the buffer before this call were moved or removed
+                core.fail_now('output-buffer-not-appended-to', None)
+            return out
+        return parse_frames(bytes(buf[mark:]))
 
     def nbytes(self):
-        if CTX.mode == 'sym':
-            with NoTracing():
-                return len(CAPTURE) - self.mark
         return len(self.conn._data_to_send) - self.mark
 
 
@@ -208,9 +221,9 @@ def parse_frames(data, skip_preface=True):
     out = []
     while data:
         f, length = hf.Frame.parse_frame_header(memoryview(data[:9]))
-        f.parse_body(memoryview(data[9:9 + length]))
         if len(data) < 9 + length:
             raise HarnessError("truncated frame in output")
+        f.parse_body(memoryview(data[9:9 + length]))
         out.append(f)
         data = data[9 + length:]
     return out
@@ -218,3 +231,6 @@ def parse_frames(data, skip_preface=True):
 
 def reset_path_state():
     del CAPTURE[:]
+
+
+core.PATH_RESET_HOOKS.append(reset_path_state)
